@@ -452,6 +452,11 @@ def mon_C07(sc, trace, probes, info):
             if (fl or tr) and (w[0] != 'not' or atom[0] == 'flag') and not _transient(probes, fl, tr):
                 out.append(('until %r (%r) entered at %r was ended by its own notification at %r although the condition '
                             'never held' % (name, w, t0, t1), None))
+        if isinstance(body, CancelScope) and body.subject is info['env'].scope_objs.get(name) \
+                and body.token != ('Scope._cancel_self',) and exc is None and expected_resume(w, t0) is None:
+            # a date that can no longer come (`time == past`, `time < now-or-past`, eternity) never fires
+            out.append(('until %r (%r) entered at %r was ended by its own notification at %r although that date condition can '
+                        'never hold any more' % (name, w, t0, t1), None))
     # a block whose notification fired but which was never left at all (its owner sleeps forever)
     exited = {p[1] for p in by(probes, 'scope_exit')}
     final = info.get('final') or [None]
